@@ -23,6 +23,7 @@ def spaces(tier):
             dict(size=1, level=0, cfg='K0', t0=['empty', 'full', 'dir_d_j'], mut='all'),
             dict(size=1, level=0, cfg='K1', t0=['empty'], mut='rel'),
             dict(family='pairs', size=1, level=0, cfg='K0', t0=['empty', 'full'], mut='none'),
+            dict(family='pairs', size=1, level=0, cfg='K0', t0=['empty'], mut='plant'),
             dict(size=2, level=0, cfg='K0', t0=['empty'], mut='outputs', kw=small),
         ]
     return [
@@ -117,6 +118,17 @@ def work(ctx, task):
                     world.mutate(m)
                 world.build(P)
                 if world.diverged:
+                    continue
+                if sp['mut'] == 'plant':
+                    from .c03 import plant_mutations
+                    hp = world.save()
+                    for m in plant_mutations(world, P):
+                        world.restore(hp)
+                        if m is not None and not world.mutate(m):
+                            continue
+                        acc.count('histories')
+                        crash_sweep(world, acc, Q, 'pair+plant')
+                    world.drop(hp)
                     continue
                 acc.count('histories')
                 crash_sweep(world, acc, Q, 'pair')
